@@ -253,6 +253,16 @@ def check_direct(markup, typ, fn):
         i, x, y = d
         return [Finding((fn, classify(x, y)), w, "%s(%s) altered safe markup at token %d: %r became %r (input %r, output %r)" % (fn, typ, i, x, y, markup[:200], out[:200]),
                         observed=out, expected="same token stream", oracle="tools/oracles/html5tok.py on input and output")]
+    if typ == "application/xhtml+xml":
+        # XML names are case-sensitive (the HTML tokenizer above lower-cases tag names, as HTML does): in XHTML-typed content every end tag has to come
+        # back in the spelling it went in with ("</linearGradient>", not "</lineargradient>"), or the fragment stops being well-formed. Only judged
+        # when the token streams agree, i.e. when nothing else (a listed finding, say) has already changed the sequence of tags.
+        import re as _re
+        ein, eout = _re.findall(r"</([A-Za-z][^\s>]*)", markup), _re.findall(r"</([A-Za-z][^\s>]*)", out)
+        if ein != eout and [e.lower() for e in ein] == [e.lower() for e in eout]:
+            k = next(i for i in range(len(ein)) if ein[i] != eout[i])
+            return [Finding((fn, "end-tag-spelling"), w, "%s(%s) changed the spelling of end tag %d: </%s> became </%s> (input %r, output %r)" % (fn, typ, k, ein[k], eout[k], markup[:200], out[:200]),
+                            observed=out, expected="every end tag in the spelling of the input (XML names are case-sensitive)", oracle="end-tag names of input and output, compared as XML names")]
     return []
 
 
